@@ -99,6 +99,11 @@ def _hist_cases(rng, tier):
             ops.append("bp:" + sx("M/%d/%d" % (a, b)))
         ops += ["ckd:0:%d" % i for i in rng.sample([9, 4, 2, 0, 1, 3], 4)]
         ops += gen_history(rng, 12, watch=True)
+        # refused requests that share their first steps with nodes handed out earlier, then every held node re-inspected
+        a, b = rng.choice([0, 1]), rng.choice([7, 5, 3, 2, 1, 0])
+        ops += ["bp:" + sx("M/%d/%d'" % (a, b)), "bp:" + sx("M/%d/%d/0h" % (a, b)), "dp:0:%s" % impl.lst(str, [a, b, H]),
+                "ckd:1:%d" % (H + 3)]
+        ops += ["xk:%d" % h for h in range(0, 8)] + ["ad:%d:p2wpkh" % h for h in range(1, 5)]
         yield "hist %s %s" % (wo, ";".join(ops)), "shared-watch-only-object"
 
 
